@@ -12,7 +12,7 @@ let proto_of = function
   | "hjky" -> Some PHjky
   | "redistribute" -> Some PRedistribute
   | "dkls23" -> Some PDkls23
-  | "lindell22" -> Some PLindell22
+  | "lindell22" | "lindell22-2" -> Some PLindell22
   | "boldyreva" -> Some PBoldyreva
   | "canetti" -> Some PCanetti
   | "aor" -> Some PAor
